@@ -259,7 +259,9 @@ func (mw *msgWriter) writePreformattedGenHeader(msg *Msg) {
 func (mw *msgWriter) startMP(mimeType MIMEType, boundary string) string {
 	multiPartWriter := multipart.NewWriter(mw)
 	if boundary != "" {
-		mw.err = multiPartWriter.SetBoundary(boundary)
+		if err := multiPartWriter.SetBoundary(boundary); err != nil {
+			mw.err = err
+		}
 	}
 
 	contentType := fmt.Sprintf("multipart/%s;\r\n boundary=%s", mimeType,
